@@ -2382,3 +2382,97 @@ func ruleGenerationRunsTheGenerators(c *core.Ctx) {
 func init() {
 	reg("C20", ruleGenerationRunsTheGenerators)
 }
+
+// ---------------------------------------------------------------------------------------------------------------
+// LF1: a loop `for i := range A` that FILLS `B[i]` (or a field of it) fills every entry: no `continue` stands in
+// front of the assignment. An entry that was skipped stays nil and is dereferenced by the code that walks B later.
+// ---------------------------------------------------------------------------------------------------------------
+func ruleFillingLoopsFillEveryEntry(c *core.Ctx) {
+	const rule = "LF1"
+	c.Rule(rule, "pkg/packaging, pkg/dsl, internal/cmd: in a range loop with index i whose body assigns a pointer or interface to `X[i]` / `X[i].F`, no `continue` precedes that assignment (every entry is filled; a skipped one stays nil)", 2)
+	n := 0
+	for _, d := range c.AllDecls() {
+		p := c.DeclPkg(d)
+		if p == nil || d.Body == nil || c.IsTestFile(d.Pos()) || !(strings.HasSuffix(p.PkgPath, "/pkg/packaging") || strings.HasSuffix(p.PkgPath, "/pkg/dsl") || strings.HasSuffix(p.PkgPath, "/internal/cmd")) {
+			continue
+		}
+		info := p.TypesInfo
+		ast.Inspect(d.Body, func(m ast.Node) bool {
+			rs, ok := m.(*ast.RangeStmt)
+			if !ok || rs.Key == nil {
+				return true
+			}
+			idx := identObj(info, rs.Key)
+			if idx == nil {
+				return true
+			}
+			// the filling assignment at the top level of the loop body
+			var fill *ast.AssignStmt
+			for _, s := range rs.Body.List {
+				as, ok := s.(*ast.AssignStmt)
+				if !ok || as.Tok != token.ASSIGN || len(as.Lhs) != 1 {
+					continue
+				}
+				usesIdx := false
+				ast.Inspect(as.Lhs[0], func(k ast.Node) bool {
+					if ie, ok := k.(*ast.IndexExpr); ok && identObj(info, ie.Index) == idx {
+						usesIdx = true
+					}
+					return true
+				})
+				if !usesIdx {
+					continue
+				}
+				if t := info.TypeOf(as.Lhs[0]); t != nil {
+					switch t.Underlying().(type) {
+					case *types.Pointer, *types.Interface:
+						fill = as
+					}
+				}
+			}
+			if fill == nil {
+				return true
+			}
+			n++
+			var early token.Pos
+			for _, s := range rs.Body.List {
+				if s.Pos() >= fill.Pos() {
+					break
+				}
+				ast.Inspect(s, func(k ast.Node) bool {
+					switch y := k.(type) {
+					case *ast.FuncLit, *ast.ForStmt, *ast.RangeStmt:
+						return false
+					case *ast.BlockStmt:
+						// a branch that fills the entry itself and then continues is fine
+						filledHere := false
+						for _, bs := range y.List {
+							if as, ok := bs.(*ast.AssignStmt); ok && len(as.Lhs) == 1 && types.ExprString(as.Lhs[0]) == types.ExprString(fill.Lhs[0]) {
+								filledHere = true
+							}
+							if br, ok := bs.(*ast.BranchStmt); ok && br.Tok == token.CONTINUE && !filledHere {
+								early = br.Pos()
+							}
+						}
+					}
+					return true
+				})
+			}
+			at := fill.Pos()
+			if early != token.NoPos {
+				at = early
+			}
+			c.Check(early == token.NoPos, rule, fmt.Sprintf("%s/%s", c.FuncName(d), types.ExprString(fill.Lhs[0])), at, "every iteration reaches the assignment (errors leave the function)",
+				"a `continue` in front of `"+types.ExprString(fill.Lhs[0])+" = …` skips the assignment for some entries: they stay nil, and the code that walks the collection afterwards (logImports, the flattening of namespaces) dereferences them — a panic instead of a diagnostic")
+			return true
+		})
+	}
+	if n == 0 {
+		c.Undecided(rule, "anchor/filling loops", 0, "none found")
+	}
+}
+
+func init() {
+	reg("C18", ruleFillingLoopsFillEveryEntry)
+	reg("C10", ruleFillingLoopsFillEveryEntry)
+}
